@@ -44,7 +44,7 @@ def floors(tier):
     return {"distinct_nontrivial": 20, "count:basis_currents": 100, "count:comparisons": 2000}
 
 
-POINTSETS = ["one_list", "one_array", "two", "five", "m2_scalar_z", "m2_array_z", "below", "far"]
+POINTSETS = ["one_list", "one_array", "two", "five", "m2_scalar_z", "m2_array_z", "below", "far", "int_xy_scalar_z", "int_one"]
 
 
 def cases(tier, seed):
@@ -81,6 +81,9 @@ def point_sets(scale=1.0):
         "m2_array_z": (np.array([0.3, -1.2, 2.5]), np.array([0.2, 0.9, -0.4]), np.array([0.8])),
         "below": (np.array([0.1, 0.9]), np.array([-0.3, 0.4]), np.array([-0.7, -1.5])),
         "far": (np.array([30.0, -55.0]), np.array([12.0, 80.0]), np.array([40.0, 5.0])),
+        # integer-typed coordinates (np.arange grids, literal lists) with a fractional height
+        "int_xy_scalar_z": (np.array([1, 2, -1]), np.array([0, -1, 2]), 0.5),
+        "int_one": ([1], [2], 1.5),
     }
     out = {}
     for k, (x, y, z) in P.items():
@@ -88,8 +91,9 @@ def point_sets(scale=1.0):
         zs = np.atleast_1d(np.asarray(z, float)) * scale
         if zs.shape[0] == 1:
             zs = zs * np.ones_like(xs)
-        xx = [v * scale for v in x] if isinstance(x, list) else np.asarray(x) * scale
-        yy = [v * scale for v in y] if isinstance(y, list) else np.asarray(y) * scale
+        isc = int(scale) if float(scale).is_integer() else scale  # keep integer-typed coordinates integer-typed
+        xx = [v * isc for v in x] if isinstance(x, list) else np.asarray(x) * isc
+        yy = [v * isc for v in y] if isinstance(y, list) else np.asarray(y) * isc
         zz = [v * scale for v in z] if isinstance(z, list) else (z * scale if np.isscalar(z) else np.asarray(z) * scale)
         out[k] = (xx, yy, zz, np.column_stack([xs, ys, zs]))
     return out
@@ -267,7 +271,7 @@ def run_sol(case):
         sol.supercurrent_density = Ks * Junit
         sol.normal_current_density = Kn * Junit
         Ks_si, Kn_si = Ks * CURR[cu] / LEN[lu], Kn * CURR[cu] / LEN[lu]
-        names = POINTSETS if cname in ("own", "mixA") else ["five", "one_list"]
+        names = POINTSETS if cname in ("own", "mixA") else ["five", "one_list", "int_one"]
         for pn in names:
             x, y, z, canon = psets[pn]
             forms = [("m3", dict(positions=canon))]
@@ -277,6 +281,9 @@ def run_sol(case):
                 forms.append(("m2+array", dict(positions=canon[:, :2], zs=canon[:, 2])))
             if pn == "one_list":
                 forms.append(("list", dict(positions=[float(canon[0, 0]), float(canon[0, 1]), float(canon[0, 2])])))
+            if pn in ("int_xy_scalar_z", "int_one") and float(canon[0, 0]).is_integer():
+                # integer-typed (m,2) positions with a scalar float height
+                forms = [("int_m2+scalar", dict(positions=np.asarray(canon[:, :2]).astype(int) if len(canon) > 1 else [int(canon[0, 0]), int(canon[0, 1])], zs=float(canon[0, 2])))]
             wantB_s = ref_B(canon * LEN[lu], src_si, Ks_si, a_si) / FU[fu]
             wantB_n = ref_B(canon * LEN[lu], src_si, Kn_si, a_si) / FU[fu]
             wantA_s = ref_A(canon * LEN[lu], src_si, Ks_si, a_si) / (FU[fu] * LEN[lu])
